@@ -112,7 +112,9 @@ func c03Fault(h *helios, fbs []*wire.FaultBackend, fault string, slowStall time.
 		}
 		return "closed", d
 	case "client-abort-download":
-		fmt.Fprintf(c, "GET /big HTTP/1.1\r\nHost: x.test\r\nAccept-Encoding: gzip\r\n\r\n")
+		// (Connection: close - when the answer is a short error instead of the big body, the
+		// client is not left waiting on a kept-alive connection for bytes that never come)
+		fmt.Fprintf(c, "GET /big HTTP/1.1\r\nHost: x.test\r\nAccept-Encoding: gzip\r\nConnection: close\r\n\r\n")
 		buf := make([]byte, 1024)
 		io.ReadFull(c, buf)
 		return "client-aborted", time.Since(start)
@@ -213,7 +215,20 @@ func c03Run(cfgc c03Cfg, seq []string, concurrent bool, longStall bool) (key, wh
 			return k, fmt.Sprintf("%s: the %s request had not ended after %v (all configured timeouts are 1s)", desc, seq[i], r.d.Round(100*time.Millisecond)), outcome
 		}
 	}
-	// recovery
+	// recovery. A client that went away has "ended" for the client at once, but its exchange may
+	// still be under way in the proxy (up to a backend timeout) and count as a failure when it
+	// ends: the faults have stopped when nothing is in flight any more
+	for quiet := time.Now().Add(12 * time.Second); time.Now().Before(quiet); time.Sleep(50 * time.Millisecond) {
+		busy := false
+		for _, bi := range h.lb.ListBackends() {
+			if bi.ActiveConnections != 0 {
+				busy = true
+			}
+		}
+		if !busy {
+			break
+		}
+	}
 	if httpsBackend {
 		// a listener that cannot speak TLS does not turn into a healthy https backend: the
 		// operator takes it out, the backend that is left must serve normally
@@ -239,6 +254,9 @@ func c03Run(cfgc c03Cfg, seq []string, concurrent bool, longStall bool) (key, wh
 			probes = append(probes, "err")
 		} else {
 			probes = append(probes, fmt.Sprint(r.Status))
+			if vres.ReplayPath() != "" && r.Status != 200 {
+				fmt.Printf("REPLAY probe %d: %d %.120q\n", i, r.Status, r.Body)
+			}
 			// "succeeds normally": a 200 carries the healthy backend's body and nothing else
 			if r.Status == 200 {
 				if got, derr := c15Decode(r); derr != "" || string(got) != c03Healthy {
@@ -285,6 +303,22 @@ func TestVerifC03W(t *testing.T) {
 			t.Fatal(err)
 		}
 	}()
+	if vres.ReplayPath() != "" {
+		var rp struct {
+			Config     c03Cfg   `json:"config"`
+			Faults     []string `json:"faults"`
+			Concurrent bool     `json:"concurrent"`
+			Long       bool     `json:"long_stall"`
+		}
+		if err := vres.LoadReplay(&rp); err != nil {
+			t.Fatal(err)
+		}
+		for i := 0; i < 3; i++ {
+			key, what, outcome := c03Run(rp.Config, rp.Faults, rp.Concurrent, rp.Long)
+			fmt.Printf("REPLAY run %d: [%s] faults %v concurrent=%v: how each ended: %s| verdict: %s %s\n", i+1, rp.Config, rp.Faults, rp.Concurrent, outcome, key, what)
+		}
+		return
+	}
 	th := vres.Thorough()
 	shard, shards := shardOf()
 	start := time.Now()
